@@ -164,15 +164,54 @@ Definition chk_leak (c : case) : bool :=
   (o_pending (ob c) <=? N.of_nat (length (dedup_bytes (live_digests c)))) &&
   negb (taken_after_abandon (ops c) [] []).
 
-(* a well-formed decision for the digest of a pending, handed-over bid reaches it: where the machine of
-   model/ProviderSvc.v (theorems C12_at_most_once / C12_no_leak: the entry of a digest belongs to the call
-   that registered it last, unless an abandon of an equal-digest call removed it) delivers a value to a call
-   that both sides report as handed over, the implementation must have delivered it too *)
+(* a well-formed decision for the digest of a pending bid reaches it (C12_delivered).  Judged from the
+   stimuli alone: the entry of a digest belongs to the call that registered it last (well-formed bids only),
+   unless an abandon of a still-offered call with that digest removed it or an earlier decision consumed it;
+   streams that were ended (malformed decision, receive error) deliver nothing *)
+Record xst := { x_pend : list (bytes * N); x_offered : list N; x_digs : list (N * bytes); x_ended : list N;
+                x_expect : list (N * Z) }.
+Definition x_init : xst := {| x_pend := []; x_offered := []; x_digs := []; x_ended := []; x_expect := [] |}.
+Definition x_step (x : xst) (o : op) : xst :=
+  match o with
+  | OSubmit h b =>
+      match nget h (x_digs x) with
+      | Some _ => x
+      | None =>
+          if ebid_ok (to_engine b)
+          then {| x_pend := pset (b_dig b) h (x_pend x); x_offered := h :: x_offered x;
+                  x_digs := (h, b_dig b) :: x_digs x; x_ended := x_ended x; x_expect := x_expect x |}
+          else {| x_pend := x_pend x; x_offered := x_offered x; x_digs := (h, b_dig b) :: x_digs x;
+                  x_ended := x_ended x; x_expect := x_expect x |}
+      end
+  | OTake h => {| x_pend := x_pend x; x_offered := filter (fun y => negb (y =? h)) (x_offered x); x_digs := x_digs x;
+                  x_ended := x_ended x; x_expect := x_expect x |}
+  | OAbandon h =>
+      match existsb (N.eqb h) (x_offered x), nget h (x_digs x) with
+      | true, Some d => {| x_pend := pdel d (x_pend x); x_offered := filter (fun y => negb (y =? h)) (x_offered x);
+                           x_digs := x_digs x; x_ended := x_ended x; x_expect := x_expect x |}
+      | _, _ => x
+      end
+  | ODecision sid d st | OLookup sid d st =>
+      if existsb (N.eqb sid) (x_ended x) then x
+      else if provider_response_ok d st then
+        match pget d (x_pend x) with
+        | Some h => {| x_pend := pdel d (x_pend x); x_offered := x_offered x; x_digs := x_digs x;
+                       x_ended := x_ended x; x_expect := (h, st) :: x_expect x |}
+        | None => x
+        end
+      else {| x_pend := x_pend x; x_offered := x_offered x; x_digs := x_digs x; x_ended := sid :: x_ended x;
+              x_expect := x_expect x |}
+  | ORecvErr sid => {| x_pend := x_pend x; x_offered := x_offered x; x_digs := x_digs x; x_ended := sid :: x_ended x;
+                       x_expect := x_expect x |}
+  | OTakeNone | OCallback _ => x
+  end.
+Definition expected_deliveries (l : list op) : list (N * Z) := x_expect (fold_left x_step l x_init).
+
+(* every expected delivery to a call that got its channel back is there, with that status *)
 Definition chk_not_dropped (c : case) : bool :=
-  let s := model_state c in
-  forallb (fun co => match co_vals (predict_call s (co_h co)), co_vals co with
-                     | [_], [] => negb ((co_res co =? 2) && (co_res (predict_call s (co_h co)) =? 2))
-                     | _, _ => true end) (o_calls (ob c)).
+  forallb (fun hs => forallb (fun co => negb ((co_h co =? fst hs) && (co_res co =? 2)) ||
+                                        list_eqb Z.eqb (co_vals co) [snd hs]) (o_calls (ob c)))
+          (expected_deliveries (ops c)).
 
 Definition violation (c : case) : option string :=
   if negb (chk_forwarded_valid c) then Some "forwarded-invalid"%string
